@@ -48,4 +48,21 @@ example : ∃ g', updatePointParams bare [] [[78, 69, 87]] = .ok g' :=
 
 example : (match updatePointParams bare [] [[78, 69, 87]] with | .ok g => strsOf g POINT LABELS | _ => .throw .runtime_error) = .ok [[78, 69, 87]] := by decide
 
+/-! ### the recorded finding `KF-C10-empty-analog-group`, as a witness on the model
+
+  The statement of C10 is FALSE of the unchanged library on objects whose ANALOG group holds no parameter: the negation is
+  proved here with a concrete object (and replayed on the library by `corpus/C10/kf-empty-analog-group.script`). The theorems
+  `step_refused_unchanged` (under `Mand`, which such an object does not satisfy) stay the part of C10 that holds. -/
+
+def optotrakLike : C3D :=
+  { C3D.init with groups :=
+      [{ name := POINT, params := [{ name := USED, type := .int, dims := [1], ints := [0] }, { name := FRAMES, type := .int, dims := [1], ints := [0] },
+                                   { name := LABELS, type := .char, dims := [0, 0] }] },
+       { name := ANALOG, params := [] }] }
+
+/-- `c3d::point("NEW")` is refused (ANALOG:LABELS not found) AFTER the POINT block has rewritten USED and LABELS -/
+theorem point_on_empty_analog_group_witness :
+    ∃ e l, optotrakLike.point F0 [78, 69, 87] = .throw e l ∧ l ≠ optotrakLike ∧ int0 l.groups POINT USED = .ok 1 := by
+  refine ⟨.invalid_argument, _, rfl, ?_, ?_⟩ <;> decide
+
 end Ezc3d.C10
